@@ -75,7 +75,10 @@ def parse_mir(text):
             body = lines[i:j+1]
             if ln.startswith('fn '):
                 f = parse_fn(body)
-                fns[f.name] = f
+                k = f.name
+                while k in fns: k += '#dup'
+                f.key = k
+                fns[k] = f
             else:
                 m = re.match(r'(?:const|static(?: mut)?) (.*): (.*?) = \{$', ln)
                 if m:
